@@ -16,8 +16,9 @@ UnderRoot2 == [x \in P2 |-> IF x = "p" THEN {"q"} ELSE {}]
 
 (* behaviour configurations: p varies, q renders with a and keeps quiet with b *)
 BehP(pa, pb) == [x \in P2 |-> IF x = "p" THEN [a |-> pa, b |-> pb] ELSE [a |-> "render", b |-> "nothing"]]
-Beh2 == {BehP("render", "render"), BehP("render", "ignore"), BehP("nothing", "ignore_render"), BehP("ignore", "render")}
+Beh2 == {BehP("render", "render"), BehP("render", "ignore"), BehP("nothing", "ignore_render"), BehP("ignore", "render"), BehP("defer_only", "nothing")}
 Beh2Small == {BehP("render", "ignore")}
+Beh2Defer == {BehP("defer_only", "render")}
 Beh3 == {[x \in P3 |-> [a |-> "render", b |-> IF x = "q" THEN "ignore" ELSE "nothing"]]}
 
 A(all, force, entry, gens) == [all |-> all, force |-> force, entry |-> entry, gens |-> gens]
